@@ -569,6 +569,10 @@ class Analysis:
     # ------------------------------------------------------------------ load / store
     def load(self, path, st):
         store = st.store
+        r0 = path[0]
+        if r0[0] == 'ptr' and r0[1][0] == 'gamma':
+            g = r0[1]
+            return mk('gamma', g[1], self._load_via(g[2], path[1:], st), self._load_via(g[3], path[1:], st))
         v = store.get(path)
         n = len(path)
         if v is None:
@@ -588,6 +592,16 @@ class Analysis:
             for k in sorted(below, key=len):
                 v = self._upd(v, k[n:], store.get(k))
         return v
+
+    def _load_via(self, ptr, rest, st):
+        if ptr[0] == 'ref':
+            return self.load(ptr[1] + rest, st)
+        if ptr[0] == 'constref':
+            v = ptr[1]
+            for c in rest:
+                v = self.project(v, c, st)
+            return v
+        return self.load((('ptr', ptr),) + rest, st)
 
     def _pre(self, path):
         r = path[0]
@@ -687,6 +701,17 @@ class Analysis:
         return ('proj', v, c)
 
     def write(self, path, val, st, bb=None, span=None):
+        r0 = path[0]
+        if r0[0] == 'ptr' and r0[1][0] == 'gamma':
+            g = r0[1]
+            for ptr, pol in ((g[2], True), (g[3], False)):
+                if ptr[0] == 'ref':
+                    tgt = ptr[1] + path[1:]
+                else:
+                    tgt = (('ptr', ptr),) + path[1:]
+                old = self.load(tgt, st)
+                self.write(tgt, mk('gamma', g[1], val, old) if pol else mk('gamma', g[1], old, val), st, bb, span)
+            return
         for i, c in enumerate(path):
             if c[0] == 'idx' and i > 0:
                 coll = path[:i]
@@ -917,13 +942,15 @@ class Analysis:
         return [(x, st) for x in cfg.succ[bb]]
 
     # ------------------------------------------------------------------ calls
-    def deref_val(self, v, st):
+    def deref_val(self, v, st, depth=0):
         n = 0
         while n < 4:
             if v[0] == 'ref':
                 v = self.load(v[1], st)
             elif v[0] == 'constref':
                 v = v[1]
+            elif v[0] == 'gamma' and depth < 6 and (v[2][0] in ('ref', 'constref', 'gamma') or v[3][0] in ('ref', 'constref', 'gamma')):
+                return mk('gamma', v[1], self.deref_val(v[2], st, depth + 1), self.deref_val(v[3], st, depth + 1))
             else:
                 break
             n += 1
